@@ -10,6 +10,7 @@ From RJ Require Model.Base64 Proofs.Base64_arith_proofs Proofs.Base64_proofs.
 From RJ Require Model.Utf8Codec Proofs.Utf8Codec_proofs.
 From RJ Require Model.JsonParse Proofs.JsonParse_proofs Proofs.JsonString_proofs Proofs.JsonRoundtrip_proofs.
 From RJ Require Model.Esc Proofs.Esc_proofs.
+From RJ Require Model.Hash Proofs.Hash_proofs.
 Local Open Scope N_scope.
 
 (* ======================= std.parseOctal / std.parseHex ======================= *)
@@ -283,6 +284,37 @@ Example C20_esc_nonvacuous :
   escape_json 31 [26; 34; 233] = [34; 92; 117; 48; 48; 49; 97; 92; 34; 233; 34].
 Proof. vm_compute. repeat split; reflexivity. Qed.
 
+(* ================================ digests ======================================= *)
+(* executable specifications written from RFC 1321 / FIPS 180-4 / FIPS 202 (Model/Hash.v), not
+   models of the external crates: they reproduce the standards' test vectors (and the padding
+   boundary lengths), pad to a block boundary, and give digests of the standard length; the
+   implementation is compared with them on every run through the correspondence check *)
+Theorem C20_hash_vectors :
+  Hash.be_word (Hash.md5 Hash_proofs.abc) = 0x900150983cd24fb0d6963f7d28e17f72 /\
+  Hash.be_word (Hash.sha1 Hash_proofs.abc) = 0xa9993e364706816aba3e25717850c26c9cd0d89d /\
+  Hash.be_word (Hash.sha256 Hash_proofs.abc) = 0xba7816bf8f01cfea414140de5dae2223b00361a396177a9cb410ff61f20015ad /\
+  Hash.be_word (Hash.sha512 Hash_proofs.abc) =
+    0xddaf35a193617abacc417349ae20413112e6fa4e89a97ea20a9eeee64b55d39a2192992a274fc1a836ba3c23a3feebbd454d4423643ce80e2a9ac94fa54ca49f /\
+  Hash.be_word (Hash.sha3_512 Hash_proofs.abc) =
+    0xb751850b1a57168a5693cd924b6b096e08f621827444f70d884f5d0240d2712e10e116e9192af3c91a7ec57647e3934057340b4cf408d5a56592f8274eec53f0.
+Proof.
+  split; [exact (proj1 (proj2 Hash_proofs.md5_vectors))|].
+  split; [exact (proj1 (proj2 Hash_proofs.sha1_vectors))|].
+  split; [exact (proj1 (proj2 Hash_proofs.sha256_vectors))|].
+  split; [exact (proj1 (proj2 Hash_proofs.sha512_vectors))|].
+  exact (proj1 (proj2 Hash_proofs.sha3_512_vectors)).
+Qed.
+
+Theorem C20_hash_pad_length : forall block lenbytes be msg, (0 < block)%nat ->
+  (length (Hash.md_pad block lenbytes be msg) mod block = 0)%nat /\
+  (length msg + 1 + lenbytes <= length (Hash.md_pad block lenbytes be msg))%nat.
+Proof. exact Hash_proofs.md_pad_length. Qed.
+
+Theorem C20_hash_output_length : forall s,
+  length (Hash.std_md5 s) = 32%nat /\ length (Hash.std_sha1 s) = 40%nat /\ length (Hash.std_sha256 s) = 64%nat /\
+  length (Hash.std_sha512 s) = 128%nat /\ length (Hash.std_sha3 s) = 128%nat.
+Proof. exact Hash_proofs.std_hash_lengths. Qed.
+
 Print Assumptions C20_radix_no_panic.
 Print Assumptions C20_radix_invalid_digit_iff.
 Print Assumptions C20_radix_value_exact.
@@ -318,3 +350,6 @@ Print Assumptions C20_dollars_doubling.
 Print Assumptions C20_parse_escape_json.
 Print Assumptions C20_escape_json_0x19_refuted.
 Print Assumptions C20_esc_nonvacuous.
+Print Assumptions C20_hash_vectors.
+Print Assumptions C20_hash_pad_length.
+Print Assumptions C20_hash_output_length.
